@@ -157,7 +157,7 @@ def runApp (c : Case) : Res :=
         { verdict := "DIFF", tags := ["dk=panic", ntTag ["C05"], "abort=panic"] ++ baseTags, msg := "implementation panicked: " ++ msg }
       else
         match c08fail with
-        | some m => { verdict := "ORACLE", tags := ["of=C08", ntTag ["C08"], "abort=1"] ++ baseTags, msg := "C08: " ++ m ++ " || " ++ msg }
+        | some m => { verdict := "ORACLE", tags := ["of=C04,C08", ntTag ["C08"], "abort=1"] ++ baseTags, msg := "C04/C08: " ++ m ++ " || " ++ msg }
         | none =>
           match model with
           | none => { verdict := "ok", tags := [ntTag ["C08"], "abort=1"] ++ baseTags }
